@@ -1336,6 +1336,30 @@ func genExits(repo, out string) {
 		g.fail("region client fail missing")
 	}
 	g.def("failCalls", "List String", leanList(failCalls))
+	// region/info.go infoFromCell: the check on the meta row key before it becomes a region name
+	fri := parse(filepath.Join(repo, "region", "info.go"))
+	rowCheck := ""
+	if fd := findFunc(fri, "infoFromCell"); fd != nil {
+		ast.Inspect(fd.Body, func(n ast.Node) bool {
+			is, ok := n.(*ast.IfStmt)
+			if !ok || len(is.Body.List) == 0 {
+				return true
+			}
+			ret, ok := is.Body.List[len(is.Body.List)-1].(*ast.ReturnStmt)
+			if !ok || len(ret.Results) != 2 || !strings.Contains(exprStr(ret.Results[1]), "invalid region name") {
+				return true
+			}
+			init := ""
+			if is.Init != nil {
+				var b bytes.Buffer
+				printer.Fprint(&b, fset, is.Init)
+				init = b.String() + "; "
+			}
+			rowCheck = init + exprStr(is.Cond)
+			return true
+		})
+	}
+	g.def("metaRowKeyCheck", "String", leanStr(rowCheck))
 	g.def("publishSites", "List (String × List String)", "[\n  "+strings.Join(sites, ",\n  ")+"]")
 	g.finish(out)
 }
